@@ -94,6 +94,52 @@ package mongokit
 //@   ensures [C10 name=exact-negation] (result == nil) == (in == ErrNotMatched) && (result == ErrNotMatched) == (in == nil)
 //@   ensures [C10 name=errors-pass] imp(in != nil && in != ErrNotMatched, result == in)
 
+// $exists: the operand is read MongoDB-style (false, null and numeric zero ask
+// for absence, everything else for presence) and compared with whether the path
+// yields a value (for a path that fans out: at least one).
+//@ func matchExists
+//@   tags C10
+//@   uses access
+//@   requires doc != nil && spec.wfVal(spec.VDoc(*doc)) && spec.wfVal(v)
+//@   modifies nothing
+//@   let value = spec.allValue(*doc, path, true, true)
+//@   let multi = spec.allMulti(*doc, path, true, true)
+//@   let found = ite(multi && is(value, VArr), len(spec.arr(value)) > 0, value != spec.VMissing)
+//@   let wanted = ite(is(v, VBool), spec.bool(v), ite(v == spec.VNil, false, ite(is(v, VI32), v != spec.VI32(0), ite(is(v, VI64), v != spec.VI64(0), ite(is(v, VF64), !smt("(fp.isZero (f64 $v))"), true)))))
+//@   ensures [C10 name=exists-table] (result == nil) == (wanted == found)
+//@   ensures [C10 name=match-or-not] result == nil || result == ErrNotMatched
+
+// $all, per value the path yields: an array value matches when every operand is
+// BSON-equal to one of its elements; any value matches when it is BSON-equal to
+// every operand; an empty operand array matches nothing.
+//@ define hasEqual(a, x) = exists(e, 0, len(a), spec.witness(e) && spec.cmp(x, a[e]) == 0)
+//@ func matchAll$1
+//@   tags C10
+//@   uses order
+//@   locals array arr matches ok value element item
+//@   requires spec.wfVal(field) && spec.wfVal(v)
+//@   let ops = spec.arr(v)
+//@   ensures [C10 name=operand-must-be-array] imp(!is(v, VArr), result != nil && result != ErrNotMatched)
+//@   ensures [C10 name=empty-matches-nothing] imp(is(v, VArr) && len(ops) == 0, result == ErrNotMatched)
+//@   ensures [C10 name=match-or-not] imp(is(v, VArr), result == nil || result == ErrNotMatched)
+//@   ensures [C10 name=all-table] imp(is(v, VArr) && len(ops) > 0, (result == nil) ==
+//@     ((is(field, VArr) && forall(i, 0, len(ops), imp(spec.witness(i), hasEqual(spec.arr(field), ops[i])))) || forall(i, 0, len(ops), imp(spec.witness(i), spec.cmp(field, ops[i]) == 0))))
+//@   loop 0 invariant is(v, VArr) && is(field, VArr) && matches == forall(i, 0, rangeindex + 1, imp(spec.witness(i), hasEqual(arr, array[i]))) && spec.witness(rangeindex + 1)
+//@   loop 1 invariant is(v, VArr) && is(field, VArr) && matches == forall(i, 0, rangeindex0 + 1, imp(spec.witness(i), hasEqual(arr, array[i]))) && spec.witness(rangeindex0 + 1)
+//@   loop 1 invariant ok == exists(e, 0, rangeindex + 1, spec.witness(e) && spec.cmp(value, arr[e]) == 0) && spec.witness(rangeindex + 1)
+//@   loop 2 invariant is(v, VArr) && forall(i, 0, rangeindex + 1, imp(spec.witness(i), spec.cmp(field, array[i]) == 0)) && spec.witness(rangeindex + 1)
+//@   loop 2 invariant !(is(field, VArr) && forall(i, 0, len(array), imp(spec.witness(i), hasEqual(spec.arr(field), array[i]))))
+
+// $type, per value the path yields: the value's BSON type is one of the wanted
+// ones, or "number" was asked for and the value is of the number class.
+//@ func matchType$1
+//@   tags C10
+//@   locals wantType class typ
+//@   requires spec.wfVal(field)
+//@   ensures [C10 name=type-table] (result == nil) == ((matchNumberClass && spec.class(field) == 1) || exists(k, 0, len(wantTypes), spec.witness(k) && wantTypes[k] == spec.btype(field)))
+//@   ensures [C10 name=match-or-not] result == nil || result == ErrNotMatched
+//@   loop 0 invariant forall(j, 0, rangeindex + 1, wantTypes[j] != spec.btype(field)) && spec.witness(rangeindex + 1) && !(matchNumberClass && spec.class(field) == 1)
+
 // $mod: the per-value test divides by the parsed divisor; matchMod rejects a zero
 // divisor (after truncating doubles) before it builds the test.
 //@ func matchMod$1
@@ -541,6 +587,65 @@ package mongokit
 //@   ensures [C11,C08 name=keeps-smaller-or-equal] imp(cur != spec.VMissing && spec.cmp(cur, v) <= 0, err == nil && *doc == old(*doc) && nothingRecorded(ch))
 //@   ensures [C11 name=replaces-greater] imp(err == nil && (cur == spec.VMissing || spec.cmp(cur, v) > 0), *doc == spec.putPath(old(*doc), path, v, false))
 //@   ensures [C08 name=records-new-value] imp(err == nil && (cur == spec.VMissing || spec.cmp(cur, v) > 0), has(ch.Changed, path) && ch.Changed[path] == v)
+
+// $pop takes 1 (last element) or -1 (first element) and nothing else; it removes
+// exactly that element, records the array that is left, and does nothing when
+// the field is missing or the array is empty.
+//@ func applyPop
+//@   tags C11 C08
+//@   uses access order
+//@   let ch = asptr(ctx.Value, Changes)
+//@   let cur = old(spec.getPath(*doc, path))
+//@   let left = spec.getPath(*doc, path)
+//@   let wantsLast = spec.cmp(v, spec.VI64(1)) == 0
+//@   let wantsFirst = spec.cmp(v, spec.VI64(-1)) == 0
+//@   requires opCtx(ctx, doc) && spec.wfVal(v)
+//@   ensures [C11 name=operand-must-be-one-or-minus-one] imp(!wantsLast && !wantsFirst, err != nil && *doc == old(*doc) && nothingRecorded(ch))
+//@   ensures [C11,C08 name=missing-or-empty-is-noop] imp((wantsLast || wantsFirst) && (cur == spec.VMissing || (is(cur, VArr) && len(spec.arr(cur)) == 0)), err == nil && *doc == old(*doc) && nothingRecorded(ch))
+//@   ensures [C11 name=one-element-removed] imp(err == nil && is(cur, VArr) && len(spec.arr(cur)) > 0, is(left, VArr) && len(spec.arr(left)) == len(spec.arr(cur)) - 1 &&
+//@     forall(k, 0, len(spec.arr(left)), spec.arr(left)[k] == spec.arr(cur)[k + ite(wantsLast, 0, 1)]))
+//@   ensures [C08 name=records-what-is-left] imp(err == nil && is(cur, VArr) && len(spec.arr(cur)) > 0 && spec.arr(cur)[ite(wantsLast, len(spec.arr(cur)) - 1, 0)] != spec.VMissing, has(ch.Changed, path) && ch.Changed[path] == left)
+
+// $bit (structure only: the bitwise operations themselves are not modelled in the
+// integer mode of the generator): operand and target shapes, the result is an
+// integer that is written and recorded, a 64-bit target stays 64 bit.
+//@ func applyBit
+//@   tags C11 C08
+//@   uses access order
+//@   let ch = asptr(ctx.Value, Changes)
+//@   let cur = old(spec.getPath(*doc, path))
+//@   requires opCtx(ctx, doc) && spec.wfVal(v)
+//@   ensures [C11 name=operand-shape] imp(!is(v, VDoc) || len(spec.doc(v)) != 1, err != nil && *doc == old(*doc) && nothingRecorded(ch))
+//@   ensures [C11 name=target-must-be-integer] imp(cur != spec.VMissing && !is(cur, VI32) && !is(cur, VI64), err != nil && *doc == old(*doc) && nothingRecorded(ch))
+//@   ensures [C11,C08 name=written-is-recorded] imp(err == nil && !nothingRecorded(ch), has(ch.Changed, path) && *doc == spec.putPath(old(*doc), path, ch.Changed[path], false) && (is(ch.Changed[path], VI32) || is(ch.Changed[path], VI64)))
+//@   ensures [C11 name=wide-stays-wide] imp(err == nil && !nothingRecorded(ch) && is(cur, VI64), is(ch.Changed[path], VI64))
+
+// $pull with a value that is not a document removes exactly the elements that are
+// BSON-equal to it (a document operand is a query and goes through Match: not
+// stated here); nothing to remove is a no-op; what is written is what is recorded.
+//@ func pullMatches
+//@   tags C11
+//@   uses order
+//@   requires spec.wfVal(element) && spec.wfVal(condition)
+//@   modifies nothing
+//@   ensures [C11 name=scalar-is-equality] imp(!is(condition, VDoc), err == nil && result0 == (spec.cmp(element, condition) == 0))
+//@ func applyPull
+//@   tags C11 C08
+//@   uses access order
+//@   let ch = asptr(ctx.Value, Changes)
+//@   let cur = old(spec.getPath(*doc, path))
+//@   locals result removed arr item match
+//@   requires opCtx(ctx, doc) && spec.wfVal(v)
+//@   ensures [C11,C08 name=absent-is-noop] imp(cur == spec.VMissing, err == nil && *doc == old(*doc) && nothingRecorded(ch))
+//@   ensures [C11 name=target-must-be-array] imp(cur != spec.VMissing && !is(cur, VArr), err != nil && *doc == old(*doc) && nothingRecorded(ch))
+//@   ensures [C11,C08 name=nothing-to-pull-is-noop] imp(!is(v, VDoc) && is(cur, VArr) && forall(k, 0, len(spec.arr(cur)), imp(spec.witness(k), spec.cmp(spec.arr(cur)[k], v) != 0)), err == nil && *doc == old(*doc) && nothingRecorded(ch))
+//@   ensures [C11,C08 name=no-removal-nothing-recorded] imp(!removed, nothingRecorded(ch) && *doc == old(*doc))
+//@   ensures [C11,C08 name=written-is-recorded] imp(err == nil && is(cur, VArr) && removed, has(ch.Changed, path) && is(ch.Changed[path], VArr) && *doc == spec.putPath(old(*doc), path, ch.Changed[path], false))
+//@   ensures [C11 name=no-equal-element-remains] imp(err == nil && is(cur, VArr) && removed && !is(v, VDoc), forall(k, 0, len(spec.arr(ch.Changed[path])), imp(spec.witness(k), spec.cmp(spec.arr(ch.Changed[path])[k], v) != 0)))
+//@   loop 0 invariant is(cur, VArr) && *doc == old(*doc) && nothingRecorded(ch) && len(result) <= rangeindex + 1 && spec.witness(rangeindex + 1)
+//@   loop 0 invariant imp(!is(v, VDoc), forall(k, 0, len(result), imp(spec.witness(k), spec.cmp(result[k], v) != 0)))
+//@   loop 0 invariant imp(!is(v, VDoc) && !removed, forall(j, 0, rangeindex + 1, imp(spec.witness(j), spec.cmp(arr[j], v) != 0)))
+//@   loop 0 invariant imp(!is(v, VDoc) && removed, exists(j, 0, rangeindex + 1, spec.witness(j) && spec.cmp(arr[j], v) == 0))
 
 // $pullAll removes every element that is BSON-equal to one of the operands and
 // nothing else; when there is nothing to remove it is a no-op (so a second
